@@ -2,6 +2,7 @@
 C08 (an interrupted / limited step leaves the stack exactly as it found it) and C25 (with a tick
 limit the loop terminates)."""
 import os
+import re
 import sys
 
 HERE = os.path.dirname(os.path.abspath(__file__))
@@ -60,6 +61,8 @@ INTERRUPT_PROGRAMS = [
      "body": 'let x = last()\nprintln(string_repr(x))\nx * 2\n', "resumes": 3},
     {"what": "interrupt inside nested calls and a for loop", "defs": _POKE + 'fun inner(n: Int): Int {\n  if n == 1 { poke() }\n  n * 10\n}\nfun outer(): List<Int> {\n  let out: List<Int> = []\n  for n in [0, 1, 2] {\n    out = out.append(inner(n))\n  }\n  out\n}\n',
      "body": 'println(string_repr(outer()))\nstring_repr(outer())\n', "resumes": 4},
+    {"what": "interrupt while the tail expression of a function is running (seen at the frame return)", "defs": _POKE + 'fun tail_poke() { shell::run("sh", ["-c", "kill -SIG $PPID; sleep 0.3; echo out"]) }\nfun twice(): Int { tail_poke() tail_poke() 5 }\n',
+     "body": 'let r = tail_poke()\nprintln(string_repr(r))\nprintln(string_repr(twice()))\n40 + 2\n', "resumes": 5},
     {"what": "only the final step is interrupted", "defs": _POKE,
      "body": 'println("x")\npoke()\n', "resumes": 2},
 ]
@@ -227,19 +230,25 @@ def build(tier):
             "assert(top(*env).exprs_to_eval@ =~= snap.last().exprs_to_eval@);\n"
             "assert(same_stack(env.stack.0@, snap));")
     SAME_RET = "proof { if snap.last().evalled_values@.len() > 0 {\n" + SAME + "\n} }"
-    SITES = [
-        dict(anchor="return Err(EvalError::Interrupted);", where="before", name="interrupt_restores_step", props={"C08"},
-             text=SAME),
-        dict(anchor="return Err(EvalError::ReachedTickLimit(position));", where="before", name="tick_limit_restores_step", props={"C08"},
-             text=SAME),
-        dict(anchor="return Err(EvalError::ReachedStackLimit(position));", where="before", name="stack_limit_restores_step", props={"C08"},
-             text=SAME),
-    ]
-    SITES += [
-        # (the `expect` on the popped return value has already passed, so the value stack was not empty)
-        dict(anchor="return Err(EvalError::Exception(ExceptionInfo {", where="before", nth=0, name="unbound_return_type_keeps_return_value", props={"C07"}, text=SAME_RET),
-        dict(anchor="return Err(EvalError::Exception(ExceptionInfo {", where="before", nth=1, name="wrong_return_type_keeps_return_value", props={"C07"}, text=SAME_RET),
-    ]
+    # every early `return Err(EvalError::..)` of eval (interrupt, limits, the return-type check) must leave the
+    # stack as the step found it; the sites are found in the source on every run, so a new early exit is covered
+    # too.  Exits after `let return_value = env.pop_value().expect(..)` are checked under "the value stack was
+    # not empty" (otherwise that `expect` has already panicked).
+    body = u.source(EV).find_fn("eval").text
+    cut = body.find("let return_value")
+    SITES = []
+    seen = {}
+    for m_ in re.finditer(r"return Err\(EvalError::(\w+)", body):
+        variant = m_.group(1)
+        k_ = seen.get(variant, 0)
+        seen[variant] = k_ + 1
+        after_pop = cut >= 0 and m_.start() > cut
+        legacy = {("Interrupted", 0): "interrupt_restores_step", ("ReachedTickLimit", 0): "tick_limit_restores_step",
+                  ("ReachedStackLimit", 0): "stack_limit_restores_step", ("Exception", 0): "unbound_return_type_keeps_return_value",
+                  ("Exception", 1): "wrong_return_type_keeps_return_value"}
+        name = legacy.get((variant, k_), "early_exit_%s_%d_restores_step" % (variant, k_ + 1))
+        SITES.append(dict(anchor="return Err(EvalError::%s" % variant, where="before", nth=k_, name=name,
+                          props={"C07"} if variant == "Exception" else {"C08"}, text=SAME_RET if after_pop else SAME))
     PROFILE_LOOP = dict(invariant=[("idx", "__i1 <= env.stack.0@.len()")], decreases="env.stack.0@.len() - __i1")
     u.add_fn(EV, "eval", rules=RULES, contract=Contract(
         requires=[("nonempty", "old(env).stack.0@.len() >= 1")],
